@@ -372,11 +372,12 @@ type Decls struct {
 	structBase map[string]int
 	structPkg  map[string]string
 	tidSym     map[string]string
-	facts      []*Term // global axioms (ground facts about symbols)
+	facts      []*Term                   // global axioms (ground facts about symbols)
+	foreign    map[*types.TypeParam]bool // type parameters of other generic functions met through captured()
 }
 
 func newDecls() *Decls {
-	return &Decls{seen: map[string]bool{}, structs: map[string]*types.Struct{}, tids: map[string]int{}, tidTy: map[string]types.Type{}, structBase: map[string]int{}, structPkg: map[string]string{}, tidSym: map[string]string{}}
+	return &Decls{seen: map[string]bool{}, structs: map[string]*types.Struct{}, tids: map[string]int{}, tidTy: map[string]types.Type{}, structBase: map[string]int{}, structPkg: map[string]string{}, tidSym: map[string]string{}, foreign: map[*types.TypeParam]bool{}}
 }
 
 func (d *Decls) add(name, decl string) {
@@ -582,6 +583,9 @@ func (d *Decls) typeID(t types.Type) *Term {
 	s := types.TypeString(t, nil)
 	if hasTypeParam(t) {
 		sym := "zz_tid_" + sanitize(typeStr(t))
+		if d.mentionsForeign(t) {
+			sym += "_of_another_generic"
+		}
 		d.tidTy[sym] = t
 		if !d.seen["fun:"+sym] {
 			d.declConst(sym, "Int")
@@ -629,6 +633,42 @@ func (d *Decls) typeOfID(t *Term) types.Type {
 		return d.tidTy[t.Op]
 	}
 	return nil
+}
+
+// mentionsForeign: t mentions a type parameter of a generic function other than the one under verification (expr.go foreignType)
+func (d *Decls) mentionsForeign(t types.Type) bool {
+	if len(d.foreign) == 0 {
+		return false
+	}
+	found := false
+	var visit func(t types.Type, depth int)
+	visit = func(t types.Type, depth int) {
+		if found || depth > 6 || t == nil {
+			return
+		}
+		switch tt := types.Unalias(t).(type) {
+		case *types.TypeParam:
+			if d.foreign[tt] {
+				found = true
+			}
+		case *types.Pointer:
+			visit(tt.Elem(), depth+1)
+		case *types.Slice:
+			visit(tt.Elem(), depth+1)
+		case *types.Array:
+			visit(tt.Elem(), depth+1)
+		case *types.Map:
+			visit(tt.Key(), depth+1)
+			visit(tt.Elem(), depth+1)
+		case *types.Named:
+			ta := tt.TypeArgs()
+			for i := 0; ta != nil && i < ta.Len(); i++ {
+				visit(ta.At(i), depth+1)
+			}
+		}
+	}
+	visit(t, 0)
+	return found
 }
 
 func hasTypeParam(t types.Type) bool {
